@@ -393,6 +393,12 @@ var SpiceHost = [][]string{
 	{"app-root", "/app", "/api"},
 	{"ssl-always-add-https", "true"},
 	{"var-namespace", "true"},
+	{"auth-tls-secret", "ca", "ns2/ca"},
+	{"auth-tls-verify-client", "optional", "on"},
+	{"ssl-passthrough", "true"},
+	{"ssl-passthrough-http-port", "9000", "http"},
+	{"cert-signer", "acme"},
+	{"tls-alpn", "h2", "http/1.1"},
 }
 
 // SpiceBack are backend / path scoped keys.
@@ -419,12 +425,28 @@ var SpiceBack = [][]string{
 	{"backend-protocol", "h2", "h1-ssl"},
 	{"timeout-server", "30s", "5s"},
 	{"redirect-to", "https://elsewhere.example"},
+	{"oauth-uri-prefix", "/oauth2", "/deny"},
+	{"auth-url", "svc://svc2:80/auth", "svc://ns2/svc1:80"},
+	{"http-header-match", "X-A: 1", "X-B: 2"},
+	{"service-upstream", "true"},
+	{"backend-server-naming", "pod", "ip"},
+	{"assign-backend-server-id", "true"},
+	{"session-cookie-strategy", "insert"},
+	{"session-cookie-value-strategy", "pod-uid", "server-name"},
+	{"agent-check-port", "9999"},
+	{"health-check-uri", "/hz"},
+	{"use-resolver", "kube"},
+	{"waf", "modsecurity"},
+	{"denylist-source-range", "10.1.0.0/16"},
+	{"allowlist-source-range", "10.2.0.0/16"},
 }
 
 // SpiceGlobal are extra keys of the global ConfigMap.
 var SpiceGlobal = [][]string{
 	{"auth-proxy", "_front__auth:14415-14416", "_front__auth:14415-14415"},
 	{"cross-namespace-secrets-passwd", "allow"},
+	{"strict-host", "true"},
+	{"cross-namespace-services", "allow"},
 }
 
 func pick[T any](rng *rand.Rand, xs []T) T { return xs[rng.Intn(len(xs))] }
@@ -444,12 +466,24 @@ func GenCluster(rng *rand.Rand, cfg world.Config, level int) []client.Object {
 		cfg.HostPool = Hosts
 		cfg.PathPool = Paths
 	}
+	if level >= 3 {
+		// dense: few hosts and paths, every ingress heavily annotated
+		cfg.HostPool = []string{"a.example", "b.example", "alias.example", ""}
+		cfg.PathPool = []string{"/", "/app", "/app/sub", "/oauth2", "/apix"}
+	}
 	objs := world.GenCluster(rng, cfg)
 	if level == 0 {
 		return objs
 	}
 	// password secrets of basic authentication (distinct users per namespace)
 	for i, ns := range world.Namespaces {
+		if i < 2 {
+			crt, _ := world.Cert("ca-"+ns, "ca-"+ns)
+			ca := &api.Secret{}
+			ca.Namespace, ca.Name = ns, "ca"
+			ca.Data = map[string][]byte{"ca.crt": crt}
+			objs = append(objs, ca)
+		}
 		objs = append(objs, PasswdSecret(ns, "basic", fmt.Sprintf("u%d::pw%d\n", i, i)))
 		if rng.Intn(2) == 0 {
 			objs = append(objs, PasswdSecret(ns, "basic2", fmt.Sprintf("v%d::pw%d\n", i, i)))
@@ -466,7 +500,11 @@ func GenCluster(rng *rand.Rand, cfg world.Config, level int) []client.Object {
 	for _, o := range objs {
 		switch x := o.(type) {
 		case *networking.Ingress:
-			for i, n := 0, rng.Intn(2+level); i < n; i++ {
+			n := rng.Intn(2 + level)
+			if level >= 3 {
+				n = 2 + rng.Intn(5)
+			}
+			for i := 0; i < n; i++ {
 				pool := SpiceBack
 				if rng.Intn(3) == 0 {
 					pool = SpiceHost
